@@ -137,7 +137,7 @@ class Ctx:
         return derive_seed(self.seed, self.prop, *labels)
 
     def open_signatures(self) -> dict:
-        return {k["signature"]: k for k in self.known if k.get("status") == "open"}
+        return {k["signature"]: k for k in self.known if k.get("status") == "open" and k.get("signature") and k.get("match") == "signature"}
 
     def sub(self, shard, nshards):
         return Ctx(self.prop, self.tier, self.seed, self.known, shard, nshards)
